@@ -1134,7 +1134,7 @@ def genhkl_base(unit_cell, sysconditions, sintlmin, sintlmax, crystal_system='tr
 
     # Triclinic : Laue group -1
     if Laue_class == '-1':
-        logger.debug('Laue class : -1 %s'%unit_cell)
+        logger.debug('Laue class : -1 %s' % (unit_cell,))
         segm = np.array([[[ 0, 0,  0], [ 1, 0, 0], [ 0, 1, 0], [ 0, 0,  1]],
                         [[-1, 0,  1], [-1, 0, 0], [ 0, 1, 0], [ 0, 0,  1]],
                         [[-1, 1,  0], [-1, 0, 0], [ 0, 1, 0], [ 0, 0, -1]],
@@ -1148,7 +1148,7 @@ def genhkl_base(unit_cell, sysconditions, sintlmin, sintlmax, crystal_system='tr
     # Monoclinic : Laue group 2/M 
     # unique b        
     if Laue_class == '2/m':
-        logger.debug('Laue class : 2/m %s'%unit_cell)
+        logger.debug('Laue class : 2/m %s' % (unit_cell,))
         segm = np.array([[[ 0, 0,  0], [ 1, 0, 0], [ 0, 1, 0], [ 0, 0,  1]],
                         [[-1, 0,  1], [-1, 0, 0], [ 0, 1, 0], [ 0, 0,  1]]])
 
@@ -1183,7 +1183,7 @@ def genhkl_base(unit_cell, sysconditions, sintlmin, sintlmax, crystal_system='tr
 
     # Laue group : -3M1
     if Laue_class == '-3m1':
-        logger.debug('Laue class : -3m1 (hex) %s'%unit_cell)
+        logger.debug('Laue class : -3m1 (hex) %s' % (unit_cell,))
         if unit_cell[4]==unit_cell[5]:
             logger.debug('#############################################################')
             logger.debug('# Are you using a rhombohedral cell in a hexagonal setting? #')
@@ -1193,7 +1193,7 @@ def genhkl_base(unit_cell, sysconditions, sintlmin, sintlmax, crystal_system='tr
 
     # Laue group : -31M
     if Laue_class == '-31m':
-        logger.debug('Laue class : -31m (hex) %s'%unit_cell)
+        logger.debug('Laue class : -31m (hex) %s' % (unit_cell,))
         if unit_cell[4]==unit_cell[5]:
             logger.debug('#############################################################')
             logger.debug('# Are you using a rhombohedral cell in a hexagonal setting? #')
@@ -1203,7 +1203,7 @@ def genhkl_base(unit_cell, sysconditions, sintlmin, sintlmax, crystal_system='tr
 
     # Laue group : -3
     if Laue_class == '-3' and cell_choice!='rhombohedral':
-        logger.debug('Laue class : -3 (hex) %s'%unit_cell)
+        logger.debug('Laue class : -3 (hex) %s' % (unit_cell,))
         if unit_cell[4]==unit_cell[5]:
             logger.debug('#############################################################')
             logger.debug('# Are you using a rhombohedral cell in a hexagonal setting? #')
@@ -1215,7 +1215,7 @@ def genhkl_base(unit_cell, sysconditions, sintlmin, sintlmax, crystal_system='tr
     # RHOMBOHEDRAL
     # Laue group : -3M
     if Laue_class == '-3m' and cell_choice=='rhombohedral':
-        logger.debug('Laue class : -3m (Rhom) %s'%unit_cell)
+        logger.debug('Laue class : -3m (Rhom) %s' % (unit_cell,))
         if unit_cell[4]!=unit_cell[5]:
             logger.debug('#############################################################')
             logger.debug('# Are you using a hexagonal cell in a rhombohedral setting? #')
@@ -1225,7 +1225,7 @@ def genhkl_base(unit_cell, sysconditions, sintlmin, sintlmax, crystal_system='tr
 
     # Laue group : -3
     if Laue_class == '-3' and cell_choice=='rhombohedral':
-        logger.debug('Laue class : -3 (Rhom) %s'%unit_cell)
+        logger.debug('Laue class : -3 (Rhom) %s' % (unit_cell,))
         if unit_cell[4]!=unit_cell[5]:
             logger.debug('#############################################################')
             logger.debug('# Are you using a hexagonal cell in a rhombohedral setting? #')
